@@ -258,7 +258,15 @@ def execute(case, tmpdir):
         s = None
         try:
             s = src()
-            P.load_from_file(s, batch_size=m).subscribe(
+            loader = P.load_from_file(s, batch_size=m)
+            if case.get('load_twice') and mode in ('path', 'pathlib'):
+                # the observable that load_from_file returned is subscribed more than once (a
+                # second pass over the data set): an earlier subscription reads a few rows and
+                # is disposed, or reads everything; the rows of the last one are judged
+                import rx.operators as rxo
+                first = loader.pipe(rxo.take(case['load_twice'])) if case['load_twice'] > 0 else loader
+                first.subscribe(on_next=lambda i: None, on_error=lambda e: None)
+            loader.subscribe(
                 on_next=res['loaded'].append,
                 on_error=lambda e: load_state.__setitem__(0, 'error:' + type(e).__name__),
                 on_completed=lambda: load_state.__setitem__(0, 'completed'))
@@ -323,7 +331,8 @@ def mk_case(N, b, m, comp='snappy', mode='path', rgs=None, schema='ids', rowseed
             'row_group_size': rgs, 'schema': schema, 'rowseed': rowseed, 'origin': origin,
             'resub': mode == 'path' and _RESUB[0] % 3 == 0,
             'retry': mode == 'path' and _RESUB[0] % 5 == 1 and schema in ('ids', 'flat') and N > 0,
-            'at_completion': _RESUB[0] % 4 == 2}
+            'at_completion': _RESUB[0] % 4 == 2,
+            'load_twice': ([-1, 1, m, m + 1][_RESUB[0] % 4] if _RESUB[0] % 7 in (0, 3) else 0)}
 
 
 def to_tlc(tr):
@@ -390,6 +399,7 @@ def do_replay(path):
                                 'schema', 'rowseed', 'origin')}
     for k in ('resub', 'retry', 'at_completion'):
         case[k] = old.get(k, False)
+    case['load_twice'] = old.get('load_twice', 0)
     with C.scratch('rxsci-verif.c20.') as d:
         new = execute(case, d)
     v, _ = validate([new], (True, True))
